@@ -1,5 +1,6 @@
 import Tftp.Props.C01
 import Tftp.Props.C08
+import Tftp.Lemmas.Net
 /-!
 # C15 — Block-number wrap-around
 
@@ -57,5 +58,28 @@ theorem c15_receiver_expected_wraps (c : RCfg) (s : RState) (hrun : s.status = .
 /-! non-vacuity: a window straddling the wrap (file of 65537 one-byte blocks would be large; the
 arithmetic fact is shown on the numbers) -/
 example : (65535 + 1) % 65536 = 0 ∧ (65534 + 3) % 65536 = 1 := by decide
+
+end Tftp
+
+namespace Tftp
+
+/-- **a transfer of more than 65535 blocks completes byte-identically** in the fault-free closed loop, for
+every window size (so also for windows that straddle 65535 → 0): the general completion theorem has no
+bound on the number of blocks; here it is instantiated at `N > 65535` -/
+theorem c15_long_transfer_completes (f : Bytes) (b w timeout : Nat) (hb : 0 < b) (hw1 : 1 ≤ w) (hw : w < 65536)
+    (_hlong : 65535 < nblocks b f) :
+    ∃ fuel,
+      (netRun { b := b, w := w, timeout := timeout, rep := 1 } { b := b, w := w, rep := 1, cleanOnError := true }
+        Faults.none fuel
+        (netInit { b := b, w := w, timeout := timeout, rep := 1 } { b := b, w := w, rep := 1, cleanOnError := true }
+          Faults.none f)).r.win.file.content = f ∧
+      (netRun { b := b, w := w, timeout := timeout, rep := 1 } { b := b, w := w, rep := 1, cleanOnError := true }
+        Faults.none fuel
+        (netInit { b := b, w := w, timeout := timeout, rep := 1 } { b := b, w := w, rep := 1, cleanOnError := true }
+          Faults.none f)).s.status = .ok := by
+  have lc : LoopCfg { b := b, w := w, timeout := timeout, rep := 1 } { b := b, w := w, rep := 1, cleanOnError := true } :=
+    ⟨hb, hw1, hw, rfl, rfl, rfl, rfl⟩
+  obtain ⟨fuel, hd⟩ := fault_free_transfer _ _ lc f
+  exact ⟨fuel, hd.file, hd.sok⟩
 
 end Tftp
